@@ -515,6 +515,7 @@ fn apply(t: &mut Sink, m: &mut SM, op: &WOp, seq_no: usize, stats: &mut Stats) -
 }
 
 pub fn run_sequence(spec: &SSpec, seq: &[WOp], parity_odd: bool, stats: &mut Stats, tracked: bool) -> Result<Option<(usize, usize, Option<usize>)>, Fail> {
+    oracle::sys::set_crash_note(&format!("sink target={:?} writes={:?}", spec, seq));
     if tracked {
         oracle::begin_execution(parity_odd);
     }
